@@ -289,6 +289,16 @@ Theorem C20_fragments_strip_error : forall fo mk add block aa pre nt post e,
   strip_bonding_descriptors fo (snd nt) = Err e ->
   read_fragments_with fo mk add block aa = Err e.
 Proof. exact fragments_strip_error. Qed.
+(** the coarse branch of fragment_iter as the writer component models it (Write/FragRead.v) is an instance of that shape *)
+Theorem C20_coarse_branch_is_instance : forall fo aa name text,
+  (r <- strip_bonding_descriptors fo text ;; mk_coarse fo aa name r) = Write.FragRead.read_coarse_fragment fo name text.
+Proof. exact coarse_branch_is_instance. Qed.
+Theorem C20_coarse_fragments_strip_error : forall fo add block pre nt post e,
+  fragment_split block = pre ++ nt :: post ->
+  Forall (fun y => exists g, Write.FragRead.read_coarse_fragment fo (fst y) (snd y) = Ok g) pre ->
+  strip_bonding_descriptors fo (snd nt) = Err e ->
+  read_fragments_with fo (mk_coarse fo) add block false = Err e.
+Proof. exact coarse_fragments_strip_error. Qed.
 (** END TO END: a refused annotation on any bracket atom / coarse node of any fragment definition of any block *)
 Theorem C20_driver_fragment_annotation_error : forall fo mk add rc s laa legacy trs e0 mol preB x postB preF name postF
     toks dc pre body annot post sp e,
@@ -378,3 +388,5 @@ Print Assumptions C20_driver_grammar_duplicate.
 Print Assumptions C20_nonvacuous_driver.
 Print Assumptions C20_driver_string_base_error.
 Print Assumptions C20_driver_string_fragment_error.
+Print Assumptions C20_coarse_branch_is_instance.
+Print Assumptions C20_coarse_fragments_strip_error.
